@@ -279,19 +279,24 @@ theorem var_cr_Z_ctr (F : ℝ → ℝ) (θ t_cr : ℝ) (h : 0 ≤ CR.a t_cr) :
 integrals of `(sin²(θ/2), sinθ, cos²(θ/2))` for the constant pulse `F = id` only (for other pulse shapes
 the drift of the CR gate does not follow the pulse; remark R1 in DESIGN.md, `_partial` with respect to
 "every pulse shape"). -/
-theorem drift_cr_closed_forms_partial (t_cr θ : ℝ) (hθ : θ ≠ 0) (ha : 0 < CR.a t_cr) :
-    CR.det1 t_cr θ = QG.Spec.integ id g3 θ (CR.a t_cr) ∧
-    CR.det2 t_cr θ = QG.Spec.integ id g6 θ (CR.a t_cr) ∧
-    CR.det3 t_cr θ = QG.Spec.integ id g7 θ (CR.a t_cr) := by
+theorem drift_cr_closed_forms_partial (t_cr θ : ℝ) (ha : 0 < CR.a t_cr) :
+    CR.det1 θ t_cr = QG.Spec.integ id g3 θ (CR.a t_cr) ∧
+    CR.det2 θ t_cr = QG.Spec.integ id g6 θ (CR.a t_cr) ∧
+    CR.det3 θ t_cr = QG.Spec.integ id g7 θ (CR.a t_cr) := by
+  by_cases hθ : θ = 0
+  · -- the limits the code returns at `θ = 0`
+    subst hθ
+    unfold CR.det1 CR.det2 CR.det3 QG.Spec.integ g3 g6 g7
+    simp
   have e : ∀ t : ℝ, θ * id (t / CR.a t_cr) = θ * t / CR.a t_cr := fun t => by simp [mul_div_assoc]
   refine ⟨?_, ?_, ?_⟩
   · unfold QG.Spec.integ g3; simp_rw [e]
-    rw [QG.Integrator.cf_sin_half_sq θ _ hθ ha]; unfold CR.det1; field_simp
+    rw [QG.Integrator.cf_sin_half_sq θ _ hθ ha]; unfold CR.det1; rw [if_neg hθ]; field_simp
   · unfold QG.Spec.integ g6; simp_rw [e]
     have := QG.Integrator.cf_sin θ _ hθ ha
-    simp only [div_one]; rw [this]; unfold CR.det2; field_simp
+    simp only [div_one]; rw [this]; unfold CR.det2; rw [if_neg hθ]; field_simp
   · unfold QG.Spec.integ g7; simp_rw [e]
-    rw [QG.Integrator.cf_cos_half_sq θ _ hθ ha]; unfold CR.det3; field_simp
+    rw [QG.Integrator.cf_cos_half_sq θ _ hθ ha]; unfold CR.det3; rw [if_neg hθ]; field_simp
 
 /-! ## strengths -/
 
